@@ -312,8 +312,31 @@ def view_consistency(S):
     return None
 
 
+def views_on_filled_buffers(ast):
+    """workload precondition of the kernels on subviews (the generator guarantees it, the minimiser must keep it): both
+    buffers have been completely written by an earlier top-level kernel"""
+    written: set = set()
+
+    def ok(body, top):
+        for st in body:
+            if st["k"] == "vgen" and not {st["src"], st["dst"]} <= written:
+                return False
+            if st["k"] == "for" and not ok(st["body"], False):
+                return False
+            if st["k"] == "gen" and top:
+                written.add(st["out"])
+        return True
+
+    return ok(ast["body"], True)
+
+
 def run_kernels(case, out):
     from xdsl.dialects import func, linalg
+
+    if not views_on_filled_buffers(case["ast"]):
+        out["status"] = "rejected"
+        out["rejected"] = "workload:view-of-unfilled-buffer"
+        return out
 
     src = kernels_emit(case["ast"])
     spec = "set-memory-space,realize-memref-casts" + (",clear-memory-space" if case["clear"] else "")
@@ -665,11 +688,25 @@ def _kf_c12_1(case, outcome):
     """the first use of some cast value is a kernel that accumulates into it (reads its own output)"""
     import re
 
+    if _kf_c12_1_local(case, outcome):
+        return True
     if not (case.get("fam") == "kernels" and outcome.get("oracle") == "data" and first_use_is_read(case["ast"], "accumulating-first", case.get("lc_args", ()))):
         return False
     # ... and the first kernel that reads other data than in the reference is an accumulating one
     m = re.search(r"reference reads \('k(\d+)'", outcome.get("message") or "")
     acc_tags = {st["tag"] for st in _all_stmts(case["ast"]["body"]) if st.get("acc") and st["out"].startswith("%a")}
+    return bool(m and int(m.group(1)) in acc_tags)
+
+
+def _kf_c12_1_local(case, outcome):
+    """the same through a layout cast on a local buffer: with casts on every use of an allocation, a kernel that accumulates
+    into a local buffer works on a stand-in of its own whose first use is that accumulation"""
+    import re
+
+    if not (case.get("fam") == "kernels" and outcome.get("oracle") == "data" and case.get("lc_allocs") == "all"):
+        return False
+    m = re.search(r"reference reads \('k(\d+)'", outcome.get("message") or "")
+    acc_tags = {st["tag"] for st in _all_stmts(case["ast"]["body"]) if st.get("acc") and st["out"].startswith("%b")}
     return bool(m and int(m.group(1)) in acc_tags)
 
 
